@@ -263,6 +263,33 @@ pub fn total_child(args: &[String]) -> i32 {
             for a in 0..=255u8 { one(Some(&[a]), 0); }
             for a in 0..=255u8 { for c in 0..=255u8 { one(Some(&[a, c]), 0); } }
         }
+        "shaped" => {
+            // value-directed one/two-opcode generations: [frame coin?][opcode choice][variant choice]
+            // [4 or 8 value bytes at their extremes][tail feeding the mutation gate and the mutators]
+            let vals: [[u8; 8]; 10] = [
+                [0xff, 0xff, 0xff, 0x7f, 0xff, 0xff, 0xff, 0x7f], [0, 0, 0, 0x80, 0, 0, 0, 0x80], [0; 8], [0xff; 8],
+                [1, 0, 0, 0, 0, 0, 0, 0], [0xfe, 0xff, 0xff, 0x7f, 0, 0, 0, 0], [0, 0, 0, 0, 0, 0, 0xf0, 0x7f],
+                [0, 0, 0, 0, 0, 0, 0xf8, 0x7f], [0xff, 0xff, 0xff, 0xff, 0xff, 0xff, 0xef, 0x7f], [0x1f, 0, 0, 0, 0x41, 0x41, 0x27, 0x5c],
+            ];
+            let tails: [[u8; 24]; 4] = [[0; 24], [0xff; 24], [0x80; 24], [0x01; 24]];
+            for lead in 0..2 {
+                for c in 0..=255u8 {
+                    for v in 0..8u8 {
+                        for val in &vals {
+                            for tail in &tails {
+                                let mut inp: Vec<u8> = Vec::with_capacity(40);
+                                if lead == 1 { inp.push(0); }
+                                inp.push(c);
+                                inp.push(v);
+                                inp.extend_from_slice(val);
+                                inp.extend_from_slice(tail);
+                                one(Some(&inp), 0);
+                            }
+                        }
+                    }
+                }
+            }
+        }
         "random" => {
             use rand::{Rng, RngCore, SeedableRng};
             let mut rng = rand_chacha::ChaCha8Rng::seed_from_u64(b.seed);
